@@ -16,7 +16,6 @@ na = {
  "C18":"output syntax is a pure function of (profile, options)",
 }
 pending = {
- "C02":"simulation target (faults on stored bytes / streams), check not built yet in this revision",
 }
 checks = {
  "C19": dict(cat="fault_enumeration", ref="DESIGN.md §3 C19, §2.5",
@@ -48,7 +47,11 @@ checks["C09"]=dict(cat="exploration", ref="DESIGN.md §3 C09",
    text="seeded interactive, command-line and web sessions of the real driver.PProf over odd-but-valid profiles, with hostile lines, option values and query strings from a grammar plus noise, a usability probe after every hostile step, and a per-run swarm of faults in the terminal, output writer, object tool, external tools and the simulated disk; any panic (main task, fetch tasks, handlers, completer), deadlock, hang (step cap), os.Exit or a session that stops reading input is a violation.",
    note="trusted: the simulated plug-ins return only well-formed answers; hang detection is a step cap on scheduling points of the simulated run plus the worker watchdog",
    tech="deterministic simulation: seeded session histories with plug-in and disk fault injection; no-panic / no-hang / still-usable oracles")
-order = ["C08","C09","C10","C12","C16","C19","C20"]
+checks["C02"]=dict(cat="fault_enumeration", ref="DESIGN.md §3 C02",
+   text="restricted claim: parsing is total on what a valid stored profile turns into when storage and streams misbehave. A corpus of valid encodings is stored on the simulated disk, damaged by exactly one enumerated fault (every truncation length, every byte x five masks on stored and on gzip-payload bytes, sectors zeroed/lost/duplicated, read errors at every read call, short reads, seeded multi-fault combinations) and read back by the real parser; no panic, prompt return, and an error or a profile that passes an independent validity check and survives Write->Parse, Copy, Compact and every text report. Single-fault families are enumerated completely per (corpus entry, family); which entries and families are visited is sampled.",
+   note="restriction: inputs unrelated to any valid encoding (random field soups, concatenations of formats) are outside this check; trusted: the simulated disk's fault model",
+   tech="deterministic simulation: exhaustive single-fault enumeration on stored bytes and read streams of a simulated disk, independent validity oracle + downstream pipeline")
+order = ["C02","C08","C09","C10","C12","C16","C19","C20"]
 m = {
  "version":1,
  "setup_cmd":"cd /verif && ./setup.sh",
